@@ -1,6 +1,6 @@
 (* C02: the one entry point extracted to OCaml; dispatches on the leading tag. *)
 From Coq Require Import List String.
-From Verif Require Import Lib.Sexp Model.C02_params Model.C02_container Model.C02_scope Model.C02_tree Model.C02_flow.
+From Verif Require Import Lib.Sexp Model.C02_params Model.C02_container Model.C02_scope Model.C02_tree Model.C02_flow Model.C02_multi.
 Import ListNotations.
 Open Scope string_scope.
 
@@ -10,6 +10,7 @@ Definition run_C02 (s : sexp) : sexp :=
   | SList (SStr "ops" :: _) | SList (SStr "ops-spec" :: _) | SList (SStr "bound" :: _) => run_container s
   | SList (SStr "items" :: _) | SList (SStr "cpy" :: _) => run_scope s
   | SList (SStr "flow" :: _) => run_flow s
+  | SList (SStr "multi" :: _) | SList (SStr "merge" :: _) => run_multi_sexp s
   | SList (SStr "tree" :: _) | SList (SStr "tree-spec" :: _) => run_tree s
   | _ => bad_input
   end.
